@@ -102,6 +102,16 @@ def full_config(rng, nservers=1, nodeid=None, minimal=False, drop=(), tmrnum=Non
                 cob |= 0x80000000
             gen.add_tpdo(cfg, c, cob, rng.choice([0, 1, 3, 240, 254, 255, 254, 255]),
                          rng.choice([0, 0, 10, 100, 1000]), rng.choice([0, 0, 5, 50, 500]), maps)
+    if rng.random() < 0.12 and "18xx" not in drop and "14xx" not in drop:
+        # bit-wise mapping records with more than 8 entries (CiA 301 allows up to 64 mapped objects) on channels that are still free
+        ft = [c for c in range(4) if not cfg.has(0x1800 + c, 1)]
+        fr = [c for c in range(4) if not cfg.has(0x1400 + c, 1)]
+        if ft:
+            nm = rng.choice([9, 12, 64])
+            gen.add_tpdo(cfg, ft[0], 0x40000180 + 0x100 * ft[0], 255, 0, 0, [gen.maplink(0x2000, 0, 1)] * nm, nmap_slots=nm)
+        if fr:
+            nm = rng.choice([9, 16, 64])
+            gen.add_rpdo(cfg, fr[0], 0x200 + 0x100 * fr[0], 255, [gen.maplink(0x2000, 1, rng.choice([1, 4]))] * nm, nmap_slots=nm)
     if rng.random() < 0.15 and "18xx" not in drop and "14xx" not in drop:
         # a device profile with more PDO records than the stack is built for (CO_TPDO_N = CO_RPDO_N = 4): the records are plain values
         gen.add_tpdo(cfg, 4, 0x40000190, rng.choice([1, 254, 255]), 0, rng.choice([0, 5]), [gen.maplink(0x2000, 0, 8)])
